@@ -76,7 +76,9 @@ R_ALTS = [[], [("R", None, "x", "y")], [("R", ("P", None), "x", "y"), ("R", (Non
 S_ALTS = [[], [("S", None, "u", "v")], [("S", None, "u", "v"), ("S", ("S", None), "T", "w")], [("S", None, "u", "v"), ("S", None, "v", "u"), ("S", None, "T", "T")]]
 T_ALTS = [[], [("T", None, "p", "q"), ("T", ("P", "BW"), "q", "p")]]
 MOTHERS = [("M", None, "R", "k"), ("M", ("D", None), "R", "R"), ("M", None, ("A", (None, "FOCUS.Kpi"), "R", "S"), "S"),
-           ("M", None, "a", ("B", None, "b", "c")), ("M", None, "S", ("A", None, "R", ("B", None, "T", "R")))]
+           ("M", None, "a", ("B", None, "b", "c")), ("M", None, "S", ("A", None, "R", ("B", None, "T", "R"))),
+           # a name both bare and written with its own decay inside one tree, in both orders (C17-m11)
+           ("M", None, "R", ("R", ("P", None), "g", "h")), ("M", None, ("A", None, ("S", (None, "BW"), "m", "n"), "k"), ("B", None, "S", "R"))]
 R_EXP = [len(R_ALTS), len(S_ALTS), len(T_ALTS), len(MOTHERS), 2]
 N_EXP = prod(R_EXP)
 
@@ -119,6 +121,9 @@ MOTHER_SETS = [
     [("D0", None, "a(1)(1260)+", "K-"), ("D0", None, ("PiPi00", (None, "kMatrix.pole.1"), "pi+", "pi-"), ("KPi00", (None, "FOCUS.Kpi"), "K-", "pi+")),
      ("D0", ("P", None), KSTAR, RHO)],
     [("D0", None, "K(1)(1270)bar-", "pi+"), ("D0", None, "a(1)(1260)+", "K-")],
+    # one name used bare (expanded from its own lines) and, later or earlier in the text, written with its own decay (C17-m11)
+    [("D0", None, "a(1)(1260)+", "K-"), ("D0", ("D", None), ("a(1)(1260)+", ("P", None), RHO, "pi+"), "K-"),
+     ("D0", None, ("K(1)(1270)bar-", (None, "GSpline.EFF"), RHO, "K-"), "pi+"), ("D0", None, "K(1)(1270)bar-", "pi+")],
 ]
 COUPLINGS = [("2", "1", "0", "2", "0", "0"), ("0", "0.5", "0.1", "0", "1.5", "0.2"), ("0", "-0.3", "0.0", "2", "0.7", "0.0"),
              ("2", "2.5e-1", "1e-3", "0", "-3.14159", ".01")]
